@@ -75,11 +75,85 @@ def run_ref(spec):
 
 
 # ---------------------------------------------------------------------------------------------
+def pick_focus(spec):
+    """For the 'focus' strategy: which repo functions do at least two clients of this run execute?  Found out
+    in a forked grandchild (so that the run's own process stays pristine: no warmed-up lazy state), by running
+    every client's ops once, single-threaded, under a recording callback.  Returns the sorted list of
+    [file (relative to the repo), function name, first line]."""
+    import sys as _sys
+    mon = _sys.monitoring
+    r, w = os.pipe()
+    pid = os.fork()
+    if pid == 0:
+        code = 0
+        try:
+            os.close(r)
+            root = os.path.realpath(repo_root()) + os.sep
+            prefixes = tuple(resolve_scope(['repo']))
+            seen = {}
+            cur = [0]
+            cache = {}
+
+            def cb(codeobj, pos):
+                ok = cache.get(codeobj)
+                if ok is None:
+                    ok = cache[codeobj] = codeobj.co_filename.startswith(prefixes)
+                if not ok:
+                    return mon.DISABLE
+                seen[codeobj] = seen.get(codeobj, 0) | cur[0]
+
+            cats = corpus()['catalogs']
+            mon.use_tool_id(3, 'dsim-focus')
+            mon.register_callback(3, mon.events.PY_START, cb)
+            mon.set_events(3, mon.events.PY_START)
+            for i, cl in enumerate(spec['clients']):
+                cur[0] = 1 << i
+                for op in cl:
+                    try:
+                        O.run_op(op, O.Env(cats, 'op', 'op'))
+                    except BaseException:  # noqa
+                        pass
+            mon.set_events(3, 0)
+            out = sorted([c.co_filename[len(root):], c.co_name, c.co_firstlineno] for c, m in seen.items() if m & (m - 1))
+            with os.fdopen(w, 'wb') as f:
+                f.write(json.dumps(out).encode())
+        except BaseException:  # noqa
+            code = 3
+        finally:
+            os._exit(code)
+    os.close(w)
+    chunks = []
+    with os.fdopen(r, 'rb') as f:
+        chunks.append(f.read())
+    os.waitpid(pid, 0)
+    try:
+        return json.loads(b''.join(chunks).decode())
+    except Exception:
+        return []
+
+
+def choose_focus(spec):
+    st = spec['strategy']
+    if st.get('kind') != 'focus' or st.get('fn'):
+        return
+    fns = pick_focus(spec)
+    # grammar actions and lexer rules are pure functions of their arguments: prefer everything else
+    rest = [f for f in fns if not f[0].endswith(('parser.py', 'lexer.py')) or f[0].startswith('sly')]
+    pick = st.get('pick', 0)
+    pool_ = rest if (rest and pick % 5 != 0) else fns
+    if not pool_:
+        st['kind'] = 'bernoulli'
+        st['p'] = 0.01
+        return
+    st['fn'] = pool_[(pick // 5) % len(pool_)]
+
+
 def run_sim(spec):
     """One simulated C20 run (S1 with several clients, S2 with one)."""
     from .sched import Sim, Client
     t0 = time.time()
     cats = corpus()['catalogs']
+    choose_focus(spec)
     gc.collect()
     gc.disable()
     nclients = len(spec['clients'])
@@ -170,7 +244,7 @@ def run_sim(spec):
         'finishes': sim.finishes, 'first': sim.first,
         'fired': [[c.cid] + f for c in clients for f in c.fired], 'gc_fired': len(sim.gc_fired), 'gcs_at': sim.gc_fired,
         'op_evs': [c.op_evs for c in clients], 'sig': sig, 'swallowed': swallowed,
-        'overlap': sim.overlap_funcs, 'wall': time.time() - t0,
+        'overlap': sim.overlap_funcs, 'wall': time.time() - t0, 'focus': spec['strategy'].get('fn'), 'focus_hits': sim.focus_hits,
     }
 
 
